@@ -1012,6 +1012,9 @@ class ModelBuilder:
         )
 
         # Set project start and end dates
+        if start_date and not duration_str:
+            # Without an interval there is no scheduling horizon (and no slot tables)
+            raise ValueError("The project header needs a duration, e.g. +3m")
         if start_date:
             project["start"] = start_date
             # Calculate end date from duration if provided
